@@ -122,11 +122,59 @@ type vhStringer struct{ s string }
 
 func (s vhStringer) String() string { return s.s }
 
+const vhC07Sp = "a<>&\"'"
+
+// named non-string types that print as arbitrary text
+var vhC07Text string
+
+type vhOpInt int
+type vhOpBool bool
+type vhOpFloat float64
+type vhOpUint8 uint8
+type vhNamedStr string
+type vhErrT struct{ s string }
+type vhFieldT struct {
+	A string
+	B int
+}
+
+func (vhOpInt) String() string   { return vhC07Text }
+func (vhOpBool) String() string  { return vhC07Text }
+func (vhOpFloat) String() string { return vhC07Text }
+func (vhOpUint8) String() string { return vhC07Text }
+func (e vhErrT) Error() string   { return e.s }
+
 // VH_C07_NonString: values that are converted to text first.
 func VH_C07_NonString() {
 	var v interface{}
 	want := ""
-	switch symChoice(6) {
+	viaRaw := false
+	shape := symParam("S", -1)
+	if shape < 0 {
+		shape = symChoice(16)
+	}
+	symTag("shape:" + strconv.Itoa(shape))
+	switch shape {
+	case 6, 7, 8, 9:
+		s := symString(symChoice(3))
+		vhC07Text = s
+		v = []interface{}{vhOpInt(3), vhOpBool(true), vhOpFloat(1.5), vhOpUint8(7)}[symChoice(4)]
+		want = s
+	case 10:
+		s := symString(symChoice(3))
+		v, want = vhNamedStr(s), s
+	case 11:
+		s := symString(symChoice(3))
+		v, want = vhErrT{s}, s
+	case 12:
+		s := symString(symChoice(3))
+		v, want = &vhStringer{s}, s
+	case 13:
+		v, viaRaw = []string{symString(symChoice(3)), "b"}, true
+	case 14:
+		v, viaRaw = map[string]string{"k": symString(symChoice(3))}, true
+	case 15:
+		v, viaRaw = vhFieldT{symString(symChoice(3)), 1}, true
 	case 0:
 		i := symInt()
 		symAssume(i > -100000 && i < 100000)
@@ -153,6 +201,12 @@ func VH_C07_NonString() {
 	name := "escape"
 	if symBool() {
 		name = "e"
+	}
+	if viaRaw {
+		// composite values: the text is whatever the raw print position gives
+		w, werr := vhC07Render(0, "raw", v)
+		symAssume(werr == nil)
+		want = w
 	}
 	out, err := vhC07Render(0, name, v)
 	symCover("rendered")
